@@ -19,10 +19,10 @@ ARGS = [((), {}), ((1,), {}), ((1, "a"), {"k": 2}), ((), {"k": 2, "m": None}),
         ((1,), {"k": 2, "m": None})]
 
 
-def worker(ident, flavour, args=((), {})):
+def worker(ident, flavour, args=((), {}), falsy=False):
     tail = ("block",) if flavour == "threading" else ("forever", 0.9)
     return {"id": ident, "flavour": flavour, "steps": [tail], "args": args[0],
-            "kwargs": args[1]}
+            "kwargs": args[1], "falsy": falsy}
 
 
 class Scenario:
@@ -50,12 +50,15 @@ class Scenario:
                                          ARGS[(index + 1) % len(ARGS)])))
         for index, flavour in enumerate(params.get("services_before", ())):
             keep.append(kit.service_class(
-                self._note(worker("sb%d-%s" % (index, flavour), flavour), True))())
+                self._note(worker("sb%d-%s" % (index, flavour), flavour,
+                                  falsy=bool(params.get("falsy"))), True))())
         # submissions after start
         outside_jobs = []
         for index, (context, flavour, how, args_index) in enumerate(params.get("late", ())):
             ident = "l%d-%s-from-%s" % (index, flavour, context)
-            desc = self._note(worker(ident, flavour, ARGS[args_index]), how == "service")
+            desc = self._note(worker(ident, flavour, ARGS[args_index],
+                                     falsy=bool(params.get("falsy")) and how == "service"),
+                              how == "service")
             step = ("service" if how == "service" else "adopt", desc)
             when = params.get("late_at", 0.0)
             if context == "outside":
@@ -271,6 +274,10 @@ def scenario_params(tier):
         if tier == "quick" and (ctx_a == ctx_b or fl_a != fl_b):
             continue
         out.append({"late": [(ctx_a, fl_a, "adopt", 2), (ctx_b, fl_b, "adopt", 4)]})
+    # 3a. services whose instances are falsy (container-like classes)
+    out.append({"services_before": FLAVOURS, "falsy": True})
+    for context, flavour in itertools.product(["outside", "trio"], FLAVOURS):
+        out.append({"late": [(context, flavour, "service", 0)], "late_at": 0.0, "falsy": True})
     # 3b. the very same callable adopted several times; a service replaced by a new one
     for context, flavour in itertools.product(["queued"] + CONTEXTS, FLAVOURS):
         out.append({"repeat": [(context, flavour, 3)]})
